@@ -118,8 +118,18 @@ def run(cmd, cwd=None, env=None, timeout=None, mem_kb=None, log=None):
     if env:
         e.update(env)
     t0 = time.time()
+
+    def _big_stack():
+        # CBMC recurses deeply over large expressions; with the default 8 MiB stack it dies with SIGSEGV (status 139)
+        try:
+            import resource
+            soft, hard = resource.getrlimit(resource.RLIMIT_STACK)
+            resource.setrlimit(resource.RLIMIT_STACK, (hard, hard))
+        except Exception:
+            pass
+
     p = subprocess.Popen(cmd, cwd=cwd, env=e, stdout=subprocess.PIPE, stderr=subprocess.STDOUT,
-                         text=True, start_new_session=True, errors="replace")
+                         text=True, start_new_session=True, errors="replace", preexec_fn=_big_stack)
     with _children_lock:
         _children.add(p)
     killed = [None]
